@@ -284,10 +284,11 @@ def shrink(pid, rec, target_check, known, time_budget=240.0, soft_timeout=None, 
     t0 = time.monotonic()
     accepted = 0
     improved = True
+    ever = {rec_digest(rec)}          # never revisit a record: guarantees termination
     while improved and time.monotonic() - t0 < time_budget:
         improved = False
         cands = []
-        seen = {rec_digest(rec)}
+        seen = set(ever)
         for c in mod.shrink_candidates(rec):
             d = rec_digest(c)
             if d in seen:
@@ -310,6 +311,7 @@ def shrink(pid, rec, target_check, known, time_budget=240.0, soft_timeout=None, 
                     break
             if hit is not None:
                 rec = hit
+                ever.add(rec_digest(rec))
                 accepted += 1
                 improved = True
                 if log:
